@@ -104,6 +104,9 @@ def parseScoring? (s : String) : Option (Scoring Rat Rat) :=
   if s == "asym" then some (.some ⟨some "asym", mAsym⟩)
   else if s == "wasym" then some (.some ⟨some "wasym", mWasym⟩)
   else if s == "sym" then some (.some ⟨some "sym", mSym⟩)
+  -- scores with `greater_is_better = True`: the attribute changes nothing in what `evaluate` reports
+  else if s == "gasym" then some (.some ⟨some "gasym", mAsym⟩)
+  else if s == "gcust" then some (.some ⟨some "gcust", mWasym⟩)
   else if s == "mape" then some (.some ⟨some "MeanAbsolutePercentageError", mMape⟩)
   else if s == "noname" then some (.some ⟨none, mAsym⟩)
   else if s == "default" then some .none
